@@ -383,6 +383,40 @@ struct Interp : World<Spline, TM, SM>
             aborted_eval(H, xseed, w, ex, three, abort_functor, abort_call);
             if (!w) snapshot_exposed(k);
         }
+        std::unique_ptr<Opt> nested_opt;
+        std::unique_ptr<WS> nested_ws;
+        Eigen::VectorXd nested_x, nested_g;
+        CC nested_cc;
+        if (abort_functor % 6 == 0 && (abort_call & (1 << 21)))
+        {
+            // the running cost re-enters the library: it evaluates ANOTHER optimizer of the same type (its own workspace)
+            // in the middle of this evaluation's integration loop, on the same thread
+            Model other = m;
+            nested_opt = this->make_twin(other);
+            nested_ws.reset(new WS());
+            nested_x = this->gen_x(other, xseed ^ 0xabcdef, 0);
+            nested_cc.prog = &prog;
+            nested_cc.nseg = other.prob.N();
+            cc.reenter_call = (long)(abort_call % std::max<long>(1, (long)m.prob.N() * (m.K + 1)));
+            Opt *no = nested_opt.get();
+            WS *nw = nested_ws.get();
+            cc.reenter = [no, nw, &nested_x, &nested_g, &nested_cc, three]() {
+                struct Pause
+                {
+                    bool saved;
+                    Pause() : saved(env::hooks().record_backward) { env::hooks().record_backward = false; }
+                    ~Pause() { env::hooks().record_backward = saved; }
+                } pause; // the nested evaluation's map calls are not the ones being recorded
+                env::SimTimeCost<DIM> tcn{&nested_cc};
+                env::SimWaypointCost<DIM> wcn{&nested_cc};
+                env::SimRunningCost<DIM> rcn{&nested_cc};
+                nested_g.resize(nested_x.size());
+                if (three) (void)no->evaluate(nested_x, nested_g, tcn, wcn, rcn, nw);
+                else (void)no->evaluate(nested_x, nested_g, tcn, rcn, nw);
+            };
+            ctx.count("fault.reentrant_callback");
+            ctx.mark_nontrivial();
+        }
         EvalResult got;
         if (ex.mode == 0 && (ex_seed & 1))
         {
@@ -422,7 +456,7 @@ struct Interp : World<Spline, TM, SM>
             const Spline &spl = w ? w->spline : *H.o->getOptimalSpline();
             this->check_trace(m, x, three, tr, spl, got.cost);
         }
-        if (checks & CHK_FD) this->check_fd(m, x, three, got);
+        if (checks & CHK_FD) this->check_fd(m, x, three, got, xmode == 2);
         if ((checks & CHK_EXPOSED) && !w) this->check_exposed_spline(H, x);
         if (!w) snapshot_exposed(k);
         check_exposed_untouched("after evaluate", k);
@@ -592,7 +626,7 @@ struct Interp : World<Spline, TM, SM>
         WS *w = select_ws((int)o.I(2), k, N, temp);
         bool three = (o.I(3) & 1) != 0;
         env::GradFault gf;
-        gf.functor = (int)(((o.I(4) % 4) + 4) % 4);
+        gf.functor = (int)(((o.I(4) % 5) + 5) % 5);
         if (gf.functor == 2 && !three) gf.functor = 3;
         gf.slot = gf.functor == 1 ? (int)(((o.I(5) % N) + N) % N) : gf.functor == 2 ? (int)(((o.I(5) % (N + 1)) + (N + 1)) % (N + 1)) : (int)(((o.I(5) % 6) + 6) % 6);
         gf.comp = (int)(((o.I(6) % DIM) + DIM) % DIM);
@@ -732,7 +766,7 @@ struct Interp : World<Spline, TM, SM>
         hk.yield_in_executor = (ycfg & 4) != 0;
         Sched::get().set_sticky((int)(200 + (plan.CI(1) % 7) * 100));
         const int domain = 2;
-        prog = env::CostProgram<DIM>::make((uint64_t)plan.CI(2, 1), 48, ORDER, plan.CI(3) & 1, (int)(((plan.CI(7) % 4) + 4) % 4));
+        prog = env::CostProgram<DIM>::make((uint64_t)plan.CI(2, 1), 96, ORDER, plan.CI(3) & 1, (int)(((plan.CI(7) % 5) + 5) % 5));
         for (int q = 0; q < W::kUserMaps; ++q)
         {
             // (C16 plans get a user time map with a restricted range: the verdict must not depend on the map)
@@ -759,6 +793,7 @@ struct Interp : World<Spline, TM, SM>
                 int k = pick(o.I(0), false);
                 if (k < 0) break;
                 int N = 1 + (int)(((o.I(1) - 1) % 12 + 12) % 12);
+                if (o.I(7) & 2) N = 65 + (int)(((o.I(1) % 26) + 26) % 26); // long trajectories (more than 64 segments)
                 do_set_init(k, N, (uint64_t)o.I(2), (o.I(3) & 1) != 0, (int)o.I(4), o.I(5), o.I(6), domain, (o.I(7) & 1) != 0);
                 ctx.count("fault.reconfig");
                 break;
@@ -830,7 +865,7 @@ struct Interp : World<Spline, TM, SM>
             {
                 int k = pick(o.I(0), true);
                 if (k < 0) break;
-                do_eval(k, (uint64_t)o.I(1), (int)(((o.I(2) % 6) + 6) % 6), (int)o.I(3), (int)o.I(4), (uint64_t)o.I(5), (int)o.I(6), (o.I(7) & 1) != 0, (int)o.I(8), (int)o.I(9), o.I(10));
+                do_eval(k, (uint64_t)o.I(1), (int)(((o.I(2) % 7) + 7) % 7), (int)o.I(3), (int)o.I(4), (uint64_t)o.I(5), (int)o.I(6), (o.I(7) & 1) != 0, (int)o.I(8), (int)o.I(9), o.I(10));
                 break;
             }
             case OP_CONCURRENT: do_concurrent(o); break;
